@@ -161,6 +161,15 @@ Fixpoint cfg_trace_eqb (a b : list (bool * cmode)) : bool :=
   | _, _ => false
   end.
 
+(* Continuous paging (DSE): the options are a profile-only setting (none in legacy mode).  Whichever path delivers the
+   rows -- an ordinary ROWS result or the pages streamed by a continuous paging session -- they are built by the row
+   factory in effect (ResponseFuture.row_factory is handed to Connection.new_continuous_paging_session). *)
+Definition continuous_in_effect (m : mode) (profile_has_options : bool) : bool :=
+  match m with Legacy => false | Profiles => profile_has_options end.
+Definition rows_built_by (f : fields) (continuous_path : bool) : Z := f_rowf f.
+Definition built_by_opt (o : option fields) (continuous_path : bool) : option Z :=
+  match o with Some f => Some (rows_built_by f continuous_path) | None => None end.
+
 (* ---------- comparison helpers ---------- *)
 Definition oz_eqb (a b : option Z) : bool :=
   match a, b with Some x, Some y => x =? y | None, None => true | _, _ => false end.
